@@ -132,6 +132,27 @@ def tracker_engine(chk, quick):
             chk.violation("c20:non-binding-table-changes-results", {"engine": "pairing", "a": str(a), "b": str(b), "rejected": rej[:2000]})
 
 
+    # ... and with appearance features: a look-alike object re-identified after a jump farther than the sum of the radii is
+    # still a pair a non-binding table admits (the distance is measured in units of r1 + r2 however far the boxes are
+    # apart).  Feature weights are discrete, so ties occur: the runs are not compared with one another but each is
+    # validated by TLC (VisualTrace.tla, tie-aware); a constrained run that is rejected on appearance / fallback /
+    # constraint grounds while the same history without a table is accepted belongs to C20.
+    free, loose = [], []
+    for i in range(2 if quick else 20):
+        seed = chk.seed * 1000 + 950 + i
+        kind = ("visual", "batchvisual")[i % 2]
+        kw = dict(vis_kind=("euclid", "cosine")[i % 2], min_votes=1, min_track_len=1, max_obs=3, steps=150, shards=2, max_idle=3, objects=4,
+                  spread=120, extra=["--no-lifecycle", "1", "--jump", "2"])
+        free.append(r2.record_visual(chk, f"c20-vfree-{i}", kind, seed, **kw))
+        kw["extra"] = kw["extra"] + ["--constraints", "1:1000.0,3:1000.0"]
+        loose.append(r2.record_visual(chk, f"c20-vloose-{i}", kind, seed, **kw))
+    rf, rl = r2.validate_visual_each(chk, free), r2.validate_visual_each(chk, loose)
+    for i, ((okf, _, _, _), (okl, why, rej, _)) in enumerate(zip(rf, rl)):
+        chk.cov["evaluations"] += 1
+        if okf and not okl and (why & {"appearance", "fallback", "constraint"}):
+            chk.violation("c20:non-binding-table-changes-appearance", {"engine": "r2v-trace", "trace": str(loose[i]), "rejected": rej[:3000]})
+
+
 def run(chk):
     quick = chk.tier == "quick"
     table_engine(chk, quick)
@@ -145,7 +166,14 @@ def _replay_path():
     return sys.argv[sys.argv.index('--replay') + 1] if '--replay' in sys.argv[:-1] else ''
 
 
+def replay_v(payload):
+    from checks import r2_common as r2
+    return r2.replay_visual_trace("C20", payload)
+
+
 def replay(payload):
+    if payload.get("engine") == "r2v-trace":
+        return replay_v(payload)
     rep = vlib.replay_single(payload["vh"], payload["case"], vlib.WORK / "C20")
     if rep["mismatches"]:
         print(f"VIOLATION property=C20 replay={_replay_path()}  # reproduced: {list(rep['by_sig'])}")
